@@ -22,6 +22,7 @@ type Handler struct {
 	fp   *os.File
 
 	openType OpenType
+	created  bool // the file at path was created by this handler (ForCreate)
 
 	rlockFile *ControlFile
 	lockFile  *ControlFile
@@ -104,6 +105,7 @@ func NewHandlerForCreate(path string) (*Handler, error) {
 		return h, closeIsolatedHandler(h, err)
 	}
 	h.fp = fp
+	h.created = true
 	return h, nil
 }
 
@@ -170,7 +172,7 @@ func (h *Handler) close() error {
 		h.fp = nil
 	}
 
-	if h.openType == ForCreate && Exists(h.path) {
+	if h.created && Exists(h.path) {
 		if err := os.Remove(h.path); err != nil {
 			return err
 		}
@@ -254,7 +256,7 @@ func (h *Handler) closeWithErrors() error {
 		}
 	}
 
-	if h.openType == ForCreate && Exists(h.path) {
+	if h.created && Exists(h.path) {
 		if err := os.Remove(h.path); err != nil {
 			errs = append(errs, err)
 		}
